@@ -520,3 +520,90 @@ def l_index(ex, st, o, args, kwargs, node):
     if is_conc(x) and all(is_conc(i) for i in items) and x in items:
         return items.index(x)
     raise Unsupported("list.index")
+
+
+# =============================================================================== file-system model (C10: ensure_path)
+FS_SORT = z3.ArraySort(S, I)      # path -> content id (0 = no such file)
+
+
+class FSV:
+    """a file-system state: which regular files exist, with which content"""
+
+    def __init__(self, arr):
+        self.arr = arr
+
+
+def fs_now(ex, st):
+    fsv = st.ghost.get("fs")
+    if fsv is None:
+        raise Unsupported("file-system access in a function whose contract has no `fs` ghost state")
+    used(ex, "file system = map from path to content (os.path.isfile, os.rename as map update; directories abstract)")
+    return fsv
+
+
+def _path_uf(ex, name):
+    return ex.ctx.uf("path_" + name, S, S)
+
+
+@builtin("os.path.normpath", "os.path.abspath", "os.path.dirname", "os.path.basename")
+def os_path_fn(ex, st, args, kwargs, node):
+    name = node.func.attr
+    v = st.get(args[0])
+    return _path_uf(ex, name)(to_z3(v))
+
+
+@builtin("os.path.isdir")
+def os_isdir(ex, st, args, kwargs, node):
+    fs_now(ex, st)
+    return fresh(B, "isdir")          # directories are not tracked: any answer
+
+
+@builtin("os.makedirs", "os.mkdir")
+def os_makedirs(ex, st, args, kwargs, node):
+    fs_now(ex, st)                   # creating a directory creates or changes no regular file
+    return None
+
+
+@builtin("os.path.isfile", "os.path.exists")
+def os_isfile(ex, st, args, kwargs, node):
+    fsv = fs_now(ex, st)
+    return z3.Select(fsv.arr, to_z3(st.get(args[0]))) != 0
+
+
+@builtin("os.rename")
+def os_rename(ex, st, args, kwargs, node):
+    fsv = fs_now(ex, st)
+    a, b = to_z3(st.get(args[0])), to_z3(st.get(args[1]))
+    ex.oblig("rename_source_exists", "L%s" % getattr(node, "lineno", "?"), st, z3.Select(fsv.arr, a) != 0)
+    st.ghost = dict(st.ghost)
+    st.ghost["fs"] = FSV(z3.Store(z3.Store(fsv.arr, b, z3.Select(fsv.arr, a)), a, z3.IntVal(0)))
+    return None
+
+
+@builtin("isfile")
+def sp_isfile(ex, st, args, kwargs, node):
+    return z3.Select(st.get(args[0]).arr, to_z3(st.get(args[1]))) != 0
+
+
+@builtin("content")
+def sp_content(ex, st, args, kwargs, node):
+    return z3.Select(st.get(args[0]).arr, to_z3(st.get(args[1])))
+
+
+@builtin("same_fs")
+def sp_same_fs(ex, st, args, kwargs, node):
+    return st.get(args[0]).arr == st.get(args[1]).arr
+
+
+def _quant_str(ex, st, e, kind):
+    lam = e.args[0]
+    name = lam.args.args[0].arg
+    v = fresh(S, name)
+    s2 = st.fork()
+    s2.env[name] = v
+    body = _b(ex.truth(ex.ev1(lam.body, s2), s2))
+    return [(st, z3.ForAll([v], body) if kind == "forall" else z3.Exists([v], body))]
+
+
+SPECIAL_FORMS["forall_path"] = lambda ex, st, e: _quant_str(ex, st, e, "forall")
+SPECIAL_FORMS["exists_path"] = lambda ex, st, e: _quant_str(ex, st, e, "exists")
